@@ -126,8 +126,7 @@ class TLCResult:
 def run_tlc(work, module, cfg, env=None, workers="auto", timeout=600, extra=(), heap="8g", stack="512m",
             simulate=None, depth=None, seed=None, dfs=False, coverage=False, deadlock=False):
     """Run TLC on spec/<module>.tla with spec/cfg/<cfg> inside the scratch dir `work`."""
-    wd = work.path("tlc-%s-%d" % (cfg.replace("/", "_"), int(time.time() * 1000) % 100000))
-    os.makedirs(wd)
+    wd = tempfile.mkdtemp(prefix="tlc-%s-" % cfg.replace("/", "_"), dir=work.dir)
     for f in os.listdir(SPEC):
         if f.endswith(".tla"):
             shutil.copy(os.path.join(SPEC, f), wd)
